@@ -337,6 +337,9 @@ func BuildPod(w *WorkloadSpec, p PodSpec) *corev1.Pod {
 		annots["gpu-fraction-num-devices"] = strconv.FormatInt(p.NumDevices, 10)
 	}
 	shared := p.Fraction != "" || p.GPUMemMi > 0
+	if shared {
+		annots["runai/shared-gpu-configmap"] = p.Name + "-shared-gpu" // what admission leaves on a GPU-sharing pod
+	}
 	if p.Node != "" && shared && len(p.GPUGroups) > 0 {
 		if p.NumDevices > 0 {
 			for _, g := range p.GPUGroups {
